@@ -61,10 +61,6 @@ Fixpoint Stacked (y : Q) (ls : list oline) : Prop :=
   | l :: r => oy l = y /\ Stacked (y + oh l)%Q r
   end.
 
-(* total advance of a placed line: widths plus the widening of every space glyph *)
-Definition advance (emv : Z) (extra : Q) (v : list item) : Q :=
-  (zq (sumw v) + zq (nspaces emv v) * extra)%Q.
-
 Definition fx (f : frag) : Q := match f with FT x _ | FA x _ => x end.
 Definition fw (f : frag) : Q := match f with FT _ w | FA _ w => w end.
 
@@ -74,3 +70,70 @@ Fixpoint chain (lo hi : Q) (fs : list frag) : Prop :=
   | [] => (lo <= hi)%Q
   | f :: r => (lo <= fx f)%Q /\ (0 <= fw f)%Q /\ chain (fx f + fw f)%Q hi r
   end.
+
+(* ---- overflow-wrap: anywhere | break-word (CSS Text 3, 5.5).  A division is now a list of
+   lines of TAGGED PIECES (LineBreak.tsub: the pieces between consecutive break
+   opportunities, regular or emergency; tag true = a regular opportunity precedes the
+   piece, false = only an emergency one).  With no EB item every piece is a unit, tagged
+   true, and the predicates below are the ones above. *)
+Definition PartitionE (ts : list (bool * list item)) (ls : list (list (bool * list item))) : Prop :=
+  concat ls = ts /\ Forall (fun g => g <> []) ls.
+
+(* "its content never exceeds that width unless it is a single unbreakable unit": here a
+   single piece, which cannot be broken even in an emergency *)
+Definition line_ok_e (av : Z) (g : list (bool * list item)) : Prop :=
+  lw (cat g) <= av \/ length g = 1%nat.
+
+Fixpoint FitsE (avail av : Z) (ls : list (list (bool * list item))) : Prop :=
+  match ls with
+  | [] => True
+  | g :: r => line_ok_e av g /\ FitsE avail avail r
+  end.
+
+Definition ends_hard_t (g : list (bool * list item)) : bool := existsb is_hard (cat g).
+
+(* the unit that starts at the head of a list of tagged pieces: the first piece and the
+   pieces that follow it up to the next regular opportunity *)
+Fixpoint same_unit (l : list (bool * list item)) : list item :=
+  match l with
+  | (false, p) :: r => p ++ same_unit r
+  | _ => []
+  end.
+Definition first_unit (l : list (bool * list item)) : list item :=
+  match l with
+  | [] => []
+  | (_, p) :: r => p ++ same_unit r
+  end.
+
+(* "never breaks earlier than necessary when the next unit would still fit": at a regular
+   opportunity the whole next unit does not fit after the line; at an emergency opportunity
+   not even the next piece does *)
+Fixpoint MaximalE (avail av : Z) (ls : list (list (bool * list item))) : Prop :=
+  match ls with
+  | [] => True
+  | g :: r =>
+      match r with
+      | ((t, p) :: _) :: _ =>
+          ends_hard_t g = true \/
+          (if t then av < lw (cat g ++ first_unit (concat r)) else av < lw (cat g ++ p))
+      | _ => True
+      end /\ MaximalE avail avail r
+  end.
+
+Definition all_emergency (g : list (bool * list item)) : bool := forallb (fun p => negb (fst p)) g.
+
+(* "a line never breaks where overflow-wrap forbids it": an unbreakable sequence "may be
+   broken at an arbitrary point if there are no otherwise-acceptable break points in the
+   line": a line that ends at an emergency opportunity holds no regular one *)
+Fixpoint EmergencyOnly (ls : list (list (bool * list item))) : Prop :=
+  match ls with
+  | [] => True
+  | g :: r =>
+      match r with
+      | ((false, _) :: _) :: _ => all_emergency (tl g) = true
+      | _ => True
+      end /\ EmergencyOnly r
+  end.
+
+(* no emergency break opportunity at all: overflow-wrap: normal *)
+Definition no_eb (items : list item) : Prop := forallb (fun i => negb (is_eb i)) items = true.
